@@ -77,12 +77,15 @@ def run(ctx):
     fkc = "BlsSignatureCore::core_aggregate_verify"
     c = ctx.need_fn("E4.loop", fkc)
     if c is not None:
-        for h, ok, detail in F.loops_push_every_iteration(c, accept=lambda s: s.callee[0] == "Vec::<T, A>::push" and any(x.op == "call" and B.cname(x) == "HashToPoint::hash_to_point" for x in subterms(s.args[1]))):
-            ctx.ob("E4.loop", fkc + "/every-entry", ok, "every iteration of the pair loop pushes its own (hash_to_point(msg,dst), pk) pairing input or leaves through Err: " + detail, where=where(c, h))
+        ents = F.entry_builders(P, c)
+        for e in ents:
+            ctx.ob("E4.loop", fkc + "/every-entry", e["every"], "every list entry yields its own (hash_to_point(msg,dst), pk) pairing input or an error (%s)" % e["mode"], where=where(e["fn"], e["bb"]))
+        if not ents:
+            ctx.ob("E4.loop", fkc + "/every-entry", False, "no per-entry construction of pairing inputs found", where=where(c))
         F.check_no_dropping_adapters(ctx, "E7.adapters", P, [fkc])
         ev = evaluate(c)
-        srcs = R.loop_sources(c)
-        ctx.ob("E4.loop", fkc + "/covers-all", [R.covers_all(s, "pks") for _, s in srcs] == ["all"], "pair loop iterates the caller's iterator itself: %s" % [show(s, 4) for _, s in srcs], where=where(c))
+        srcs = [e["source"] for e in ents if e["source"] is not None]
+        ctx.ob("E4.loop", fkc + "/covers-all", [R.covers_all(s, "pks") for s in srcs] == ["all"], "the per-entry construction iterates the caller's iterator itself: %s" % [show(s, 4) for s in srcs], where=where(c))
         for b in R.ok_blocks(c):
             lits = G.path_literals(ev, b, P)
             pair = [a for a, p in lits if p and a[1] == "is_identity" and a[2].op == "call" and B.cname(a[2]) == "Pairing::pairing"]
